@@ -590,6 +590,23 @@ def clause_forward_verdict(ctx, P, cg):
     verdict CLOSED is how the reading loop learns that the connection (and its buffer) is gone"""
     key = ("struct.buffered_socket", P.field_index("struct.buffered_socket", "read_callback"))
     cbs = set(cg.field_funcs.get(key, ()))
+    # helpers that hand a callback's verdict on (return the result of a direct call to one on some path) carry a verdict themselves
+    grew = True
+    while grew:
+        grew = False
+        for g in P.own_functions():
+            if g.name in cbs or g.ret != "i32":
+                continue
+            cs = [c for c in g.all_insts() if c.op == "call" and c.callee in cbs]
+            if not cs:
+                continue
+            ids = {c.id for c in cs}
+            for v in Q.path_views(ctx, P, g):
+                ro = v.ret_operand()
+                if ro is not None and isinstance(P.strip(g, ro), int) and P.strip(g, ro) in ids:
+                    cbs.add(g.name)
+                    grew = True
+                    break
     n = 0
     for name in sorted(cbs):
         f = P.functions[name]
@@ -674,6 +691,54 @@ def clause_no_escape(ctx, P, cg):
                "the pointer refers to depends on how the stream was segmented" % (f.srcname, ", ".join(fmt_term(d) for _, d in esc[:2])))
 
 
+def clause_message_is_read_only(ctx, P, cg):
+    """what a message callback of the websocket (text/binary message or frame, ping, pong) gets is a window into the connection's
+    read buffer: the bytes behind it belong to the next frame that the same read() delivered.  Own code behind these callback slots
+    does not store through the message pointer at all (the only in-place change, unmasking, happens before, inside the window)"""
+    slots = ("text_message_received", "text_frame_received", "binary_message_received", "binary_frame_received",
+             "ping_received", "pong_received")
+    n = 0
+    bad = []
+    for sl in slots:
+        try:
+            key = ("struct.websocket", P.field_index("struct.websocket", sl))
+        except Exception:
+            continue
+        for name in sorted(cg.field_funcs.get(key, ())):
+            f = P.functions.get(name)
+            if f is None or not P.own(f) or f.nparams < 3:
+                continue
+            n += 1
+            msg = ("param", 1, f.params[1]["name"])
+            for i in f.all_insts():
+                if i.op == "store":
+                    try:
+                        lv, _ = Q.leaves(P, f, i.a[1], through_loads=False)
+                    except AnalysisBroken:
+                        continue
+                    if msg in lv:
+                        bad.append((f, i))
+    ctx.ob("C09.1 R-EFFECT", P.fn("websocket_peer.c:text_message_callback"), "message-window-is-not-written", not bad and n >= 2,
+           ("%s() stores through its message pointer at %s: the window it was handed ends at its length - one byte further is the header "
+            "of the next frame when two frames arrive in one read, so the outcome depends on how the stream was segmented" %
+            (bad[0][0].srcname, bad[0][1].loc)) if bad else "%d callbacks behind the message slots, none writes through the message pointer" % n)
+
+
+def clause_until_asks_for_one_byte(ctx, P):
+    """the reader for 'up to a delimiter' cannot know how many bytes are missing - the very next byte may complete the line - so it
+    asks the buffer for exactly one more byte; asking for more refuses a line that fits the buffer exactly (TOOMUCHDATA) or waits
+    for bytes that never come, depending on where the reads happened to cut the stream"""
+    f = P.fn("buffered_socket.c:internal_read_until")
+    cs = f.calls("fill_buffer")
+    if not cs:
+        raise AnalysisBroken("internal_read_until: call of fill_buffer not found")
+    bad = [c for c in cs if P.const_int(c.a[1]) != 1]
+    ctx.ob("C09.2 R-BOUND", f, "until-reader-asks-for-one-byte", not bad,
+           "internal_read_until() asks fill_buffer() for %s byte(s) at %s instead of 1: a line that ends at the last free byte of the read "
+           "buffer is refused when its end arrives in a later read, and accepted when it arrives in one piece" %
+           (fmt_term(P.term(f, bad[0].a[1])) if bad else "", bad[0].loc if bad else ""))
+
+
 def run(ctx):
     for cfg in ctx.configs():
         P, cg = cfg.P, cfg.cg
@@ -686,3 +751,5 @@ def run(ctx):
         clause_no_escape(ctx, P, cg)
         clause_readable_drains(ctx, P, cg)
         clause_forward_verdict(ctx, P, cg)
+        clause_message_is_read_only(ctx, P, cg)
+        clause_until_asks_for_one_byte(ctx, P)
